@@ -107,6 +107,10 @@ def windows():
         story(est + [cause, ("drain",)] + again + [("resolved", None, 1), ("drain",), ("tcp", None), ("drain",), ("finish", 0), ("drain",), ("data", [H(HELLO)]), ("drain",), ("cmd",)])
         for hops in (0, 1):
             story(est + [("hop", hops, ("data", [H(SWITCH_STATE, tag=1)])), ("hop", hops, cause), ("hop", hops, ("cmd",))] + [("drain",)] + again)
+    # the device says goodbye: a command or a new attempt in the very same turn (and one turn later) sees the session as ended
+    for hops in (0, 1):
+        story(est + [("hop", hops, ("data", [H(DISC_REQ)])), ("hop", hops, ("cmd",)), ("hop", hops, ("start",)), ("drain",)] + again)
+        story(est + [("hop", hops, ("data", [H(DISC_REQ), H(SWITCH_STATE, tag=1)])), ("hop", hops, ("cmd",)), ("drain",)] + again)
     story(est + [("cmd",), ("start",), ("finish", 0), ("drain",), ("cmd",), ("start",)])
     for cause in (("eof",), ("lost", "R.Reset"), ("data", [H(DISC_REQ)]), ("force",)):
         story(est + [("req",), ("drain",), ("data", [H(10)]), cause, ("drain",)] + again)                      # response and loss in one turn
@@ -142,7 +146,7 @@ def split_cl(proj):
 
 def predicate(tr, story):
     v = []
-    rejected = login_now = False
+    rejected = login_now = ended_by_peer = False
     steps = [(l, *split_cl(p), list(o)) for l, p, o in tr.steps]
     for i, (label, p, cl, obs) in enumerate(steps):
         pj, clj = (steps[i - 1][1], steps[i - 1][2]) if i else (connfamily.parse_proj(clienttrace.INIT_PROJ), 0)
@@ -151,9 +155,12 @@ def predicate(tr, story):
                 v.append(("C19/request-not-refused", f"request issued in state {pj['cs']} (client has connection: {clj}) was not refused", i))
             if any(o.startswith("W") for o in obs):
                 v.append(("C19/request-wrote", "request issued with no live session wrote to the device", i))
+        if label == "cstart" and ended_by_peer and "XALREADY" in obs:
+            v.append(("C19/refused-after-peer-disconnect", "the device ended the session with a DisconnectRequest, yet start_connection answers 'Already connected'", i))
         if label == "cstart" and "XALREADY" not in obs:
             rejected = False
             login_now = False
+            ended_by_peer = False
         if label.startswith("cfinish:") and "XRT" not in obs:
             login_now = label.endswith(":1")
         if label.startswith("data:"):
@@ -163,8 +170,12 @@ def predicate(tr, story):
                     rejected = True       # the device answered the login with invalid_password: this attempt never yields an authenticated session
         if label == "ccmd" and rejected and (any(o.startswith("W") for o in obs) or not any(o.startswith("X") for o in obs)):
             v.append(("C19/command-after-rejected-login", "the device rejected the login of this attempt (invalid password), yet a later command was accepted and written", i))
+        if label.startswith("data:") and clj == 1 and pj["cs"] == "CONN":
+            if any(it.startswith("f.5.1.") for it in label[5:].split(";")[:1]) or \
+                    (any(it.startswith("f.5.1.") for it in label[5:].split(";")) and not any(it.startswith(("bp.", "f.5.0")) for it in label[5:].split(";"))):
+                ended_by_peer = True      # a valid DisconnectRequest was dispatched: the session is over from this callback on
         if label == "ccmd":
-            alive = clj == 1 and pj["cs"] == "CONN"
+            alive = clj == 1 and pj["cs"] == "CONN" and not ended_by_peer
             wrote = [o for o in obs if o.startswith("W")]
             errs = [o for o in obs if o.startswith("X")]
             if not alive:
@@ -247,6 +258,70 @@ def restart_from_hook_probe(ending):
                 if t is not asyncio.current_task():
                     t.cancel()
         return out["r"]
+    return simnet.run(go)
+
+
+def no_session_sweep(stage):
+    """Every public entry point of APIClient that talks to the device, called with all its arguments supplied while no session is
+    alive (never connected / after the device ended the session / between the two connect phases): a connection error, nothing written.
+    Returns [(method, outcome, frames written)] for the entry points that did not refuse properly."""
+    import inspect
+    import typing
+    from checks import c13
+
+    async def go(loop):
+        from aioesphomeapi import api_pb2 as pb
+        from aioesphomeapi.client import APIClient
+        from aioesphomeapi.core import APIConnectionError
+        net = simnet.Net(loop)
+        bad = []
+        with net.patched():
+            cli = APIClient("10.0.0.1", 6053, None)
+            tr = None
+            if stage in ("ended", "between"):
+                await cli.start_connection()
+                if stage == "ended":
+                    task = asyncio.ensure_future(cli.finish_connection(login=False))
+                    await simnet.drain(loop)
+                    tr = net.transports[-1]
+                    tr.feed(simnet.plain_msg(pb.HelloResponse(api_version_major=1, api_version_minor=10, name="dev")))
+                    await simnet.drain(loop)
+                    await task
+                    tr.feed(simnet.plain_msg(pb.DisconnectRequest()))
+                    await simnet.drain(loop)
+            skip = {"connect", "start_connection", "finish_connection", "disconnect", "set_debug", "set_cached_name_if_unset"}
+            for mname, _ in inspect.getmembers(APIClient, predicate=inspect.isfunction):
+                if mname.startswith("_") or mname in skip:
+                    continue
+                meth = getattr(cli, mname)
+                hints = typing.get_type_hints(meth.__func__, include_extras=False)
+                kwargs = {pn: c13.synth_arg(pn, hints.get(pn, p.annotation), 1) for pn, p in inspect.signature(meth).parameters.items()}
+                n0 = sum(len(t.writes) for t in net.transports)
+                out = "returned"
+                try:
+                    r = meth(**kwargs)
+                    if inspect.isawaitable(r):
+                        task = asyncio.ensure_future(r)
+                        await simnet.drain(loop)
+                        if not task.done():
+                            task.cancel()
+                            await simnet.drain(loop)
+                            out = "pending"
+                        elif task.exception() is not None:
+                            out = "L" if isinstance(task.exception(), APIConnectionError) else "raw:" + type(task.exception()).__name__
+                except APIConnectionError:
+                    out = "L"
+                except Exception as e:  # noqa: BLE001
+                    out = "raw:" + type(e).__name__
+                wrote = sum(len(t.writes) for t in net.transports) - n0
+                if out != "L" or wrote:
+                    bad.append((mname, out, wrote))
+            try:
+                await cli.disconnect(force=True)
+            except Exception:  # noqa: BLE001
+                pass
+            await simnet.drain(loop)
+        return bad
     return simnet.run(go)
 
 
@@ -343,6 +418,13 @@ def run(rep, tier, seed):
         if r != "accepted":
             rep.violation("C19/refused-in-stop-callback", f"the session was ended by {ending}; start_connection() called from the stop callback (before it first suspends) "
                           f"answered {r!r} although no session is alive and no attempt is in progress", {"kind": "restart-from-hook", "ending": ending})
+    for stage in ("never", "between", "ended"):
+        bad = no_session_sweep(stage)
+        rep.case(("no-session-sweep", stage), True, sample={"no_session_sweep": stage, "not_refused": bad[:5]})
+        rep.bump("probe:no-session-sweep")
+        if bad:
+            rep.violation("C19/not-refused-without-session", f"client with no live session ({stage}): entry point(s) that did not raise a connection error / wrote to the device "
+                          f"(method, outcome, frames written): {bad[:6]}", {"kind": "no-session-sweep", "stage": stage})
     for address, peer in (("10.0.0.1", ("10.0.0.1", 6053)), ("fd00::7", ("fd00::7", 6053, 0, 0)), ("kitchen.local", ("fd00::7", 6053, 0, 0)),
                           ("kitchen", ("10.0.0.9", 6053)), ("kitchen.local", ("10.0.0.9", 6053)), ("fe80::1%eth0", ("fe80::1%eth0", 6053, 0, 3))):
         for names in (["kitchen", "kitchen", "kitchen"], ["dev", "kitchen", "dev"], ["", "kitchen", ""]):
@@ -368,6 +450,9 @@ def replay(path):
     d = json.loads(open(path).read())["replay"]
     if d.get("kind") == "restart-from-hook":
         print(restart_from_hook_probe(d["ending"]))
+        return 0
+    if d.get("kind") == "no-session-sweep":
+        print(no_session_sweep(d["stage"]))
         return 0
     if d.get("kind") == "peer-forms":
         print(peer_forms_probe(d["address"], tuple(d["peer"]), d["names"]))
